@@ -100,6 +100,11 @@ def generate(seed, stratum, tier):
   c0 += [['post_fifo', 1, 'SB'], ['publish', 1, 'SD', None], ['sleep', p]]
   if rng.random() < 0.5:
     clients.append([['sleep', 0.001]] + [[rng.choice(['post_fifo', 'post_lifo']), 0, 'SB'] for _ in range(rng.randrange(1, 4))])
+  if stratum == 'external' and rng.random() < 0.3:
+    # another thread arms sources on the same object while the first client does: stop() must silence those as well
+    c0.insert(4, ['barrier', 2])
+    clients.append([['sleep', 0.001], ['barrier', 2]] + [['timed', 0, rng.choice(['fifo', 'lifo']), rng.choice(['TA', 'TC']), p, 0, rng.choice([True, False]), 20 + k]
+                                                          for k in range(rng.randrange(1, 3))])
   total = sum(o[1] for c in clients for o in c if o[0] == 'sleep')
   return {'objects': objs, 'queue_size': 500, 'clients': clients, 'stratum': stratum, 'horizon_s': total + p * rng.randrange(3, 7),
           'sched': common.draw_sched(rng, grans=('sync', 'line', 'opcode'), weights=(1, 2, 3), expected_steps=2500,
@@ -188,6 +193,9 @@ def judge(sc, run, sim, res):
     sim.probe('external_stop_after_handler_stop')
   st_end = ref['end']
   for tn, lst in sorted(ac.source_appends(run, 0).items()):
+    src = [x for x in run.sources if x['uid'] == tn]
+    if src and src[0]['client'] != 'handler' and (src[0]['end'] is None or src[0]['end'] > ref['begin']):
+      continue      # armed by another thread while (or after) stop() ran: the statement is about the sources the object had started
     late = [a for a in lst if a[0] > st_end]
     if late:
       st = ref
